@@ -7,6 +7,6 @@ for f in sorted(glob.glob('/verif/evidence/C*.json')):
     st = e['coverage'].get('selftest', [])
     n += len(st)
     for x in st:
-        if x.split(': ',1)[-1].startswith('skipped') or 'FALSE ALARM' in x or 'does not fire' in x.lower() or 'FAILED' in x:
+        if x.split(': ',1)[-1].startswith('skipped') or 'FALSE ALARM' in x or 'DID NOT FIRE' in x or 'does not fire' in x.lower() or 'FAILED' in x:
             print(f.split('/')[-1], x[:200])
 print(n, 'corpus entries run')
